@@ -33,6 +33,17 @@ Theorem C20gen_init : forall l,
 Proof. exact run_init. Qed.
 Print Assumptions C20gen_init.
 
+(* Buffer(b) where b is itself a Buffer (buf_arg s: the object cc s as a
+   constructor argument; Buffer(tokenize(..)) wraps the Buffer returned by the
+   to_buffer decorator): the new buffer is the buffer over what b has not
+   consumed yet, i.e. the items of b from its cursor on -- whether or not b has
+   already pulled them from its source into its look-ahead queue *)
+Theorem C20gen_init_of_buffer : forall s, Pre s ->
+  run_meth gen_cls M_init [buf_arg s] blank
+  = ODone (cc (init_state (skipn (Z.to_nat (cursor s)) (items s)))) (RVal VNone).
+Proof. exact run_init_buffer. Qed.
+Print Assumptions C20gen_init_of_buffer.
+
 (* ---- one theorem per method, for ALL states and ALL arguments *)
 
 Theorem C20gen_next : forall s, wf s ->
